@@ -161,13 +161,15 @@ func GenView(r *Rng, o TreeOpts) []*MNode {
 		}
 		visit("", root)
 		groups := 1 + r.Intn(2)
+		used := map[*MNode]bool{} // a node belongs to at most one group
 		for g := 0; g < groups; g++ {
 			sz := 2 + r.Intn(3)
 			var members []*MNode
 			for k := 0; k < sz; k++ {
 				f := Pick(r, files)
-				if f.Stat.Linkname == "" {
+				if f.Stat.Linkname == "" && !used[f] {
 					members = append(members, f)
+					used[f] = true
 				}
 			}
 			if len(members) < 2 {
